@@ -322,7 +322,9 @@ pub fn compare_reg(
         if e[k].0 == "condition" && exp.cond_unknown {
             continue;
         }
-        if e[k].1 != g[k].1 {
+        // (bit 15 is never reported; what the raw field holds there is not observable through
+        // the commands)
+        if e[k].1 & 0x7fff != g[k].1 & 0x7fff {
             out.push(Finding::new(
                 inv,
                 format!("{}_register_wrong_after_{}", e[k].0, ctx),
